@@ -91,6 +91,7 @@ type jobMem struct {
 	ResyncUsed      int               `json:"resync"`
 	KillPassed      map[string]bool   `json:"killPassed"` // jobs whose kill timestamp has passed at some point
 	UnkillUsed      int               `json:"unkill"`
+	Regressed       bool              `json:"regressed"` // a terminal pod status was reported as non-terminal again
 	Deleted         map[string]bool   `json:"deleted"`
 	CreateAfterKill bool              `json:"-"`
 }
@@ -377,7 +378,11 @@ func (w *jobWorld) envEnabled() []string {
 		deleting := p.DeletionTimestamp != nil
 		switch {
 		case podFinished(p):
-			// nothing
+			// A terminal status that is (wrongly) reported as non-terminal again: the controller
+			// must keep the timestamps it recorded (job.GetTaskRef retains them on purpose).
+			if has(s.PodActions, "unfinish") && w.mem.FlapUsed < s.MaxFlap && !deleting {
+				out = append(out, "k:unfinish:"+name)
+			}
 		case !podRan(p):
 			if !deleting {
 				if has(s.PodActions, "run") {
@@ -508,6 +513,14 @@ func (w *jobWorld) envApply(action string) {
 			w.mem.Ended[p.Name] = "failed"
 		}
 		w.mem.LastEnd[id] = int64(w.Offset())
+	case "k:unfinish":
+		w.mem.FlapUsed++
+		w.mem.Regressed = true
+		w.API.EnvMutate(sim.Pods, "default/"+parts[2], func(o runtime.Object) {
+			p := o.(*corev1.Pod)
+			p.Status.Phase = corev1.PodPending
+			p.Status.ContainerStatuses = []corev1.ContainerStatus{{Name: "c", State: corev1.ContainerState{Waiting: &corev1.ContainerStateWaiting{Reason: "ContainerCreating"}}}}
+		})
 	case "k:flap":
 		w.mem.FlapUsed++
 		w.API.EnvMutate(sim.Pods, "default/"+parts[2], func(o runtime.Object) {
@@ -685,6 +698,26 @@ func (w *jobWorld) outcome() string {
 }
 
 // ---- monitors ----
+
+// After a terminal pod status regressed to non-terminal (something a real kubelet does not do,
+// but which job.GetTaskRef explicitly defends against) only the clauses that defence is about
+// are judged: recorded timestamps are never cleared and a finished Job stays finished.
+var regressionMonitors = map[string]bool{"finish-time-cleared": true, "running-time-cleared": true, "unfinished-again": true,
+	"start-time-changed": true, "created-tasks-decreased": true, "task-forgotten": true}
+
+func (w *jobWorld) TakeViolations() []mc.Violation {
+	vs := w.Base.TakeViolations()
+	if !w.mem.Regressed {
+		return vs
+	}
+	var out []mc.Violation
+	for _, v := range vs {
+		if regressionMonitors[v.Monitor] {
+			out = append(out, v)
+		}
+	}
+	return out
+}
 
 func (w *jobWorld) features() []string {
 	f := w.Features()
